@@ -825,6 +825,11 @@ fn c08_clone_from_pair<A: Elem, B: Elem>(ctx: &mut Ctx, max_len: usize) {
                 if !sp.take() {
                     continue;
                 }
+                if fault > 0 && A::HEAP && sp.ctx.tool_mode {
+                    // a clone_from interrupted by a panic may leak what it had cloned so far (permitted): for elements that own
+                    // heap memory that is a real leak in the eyes of the leak detectors
+                    continue;
+                }
                 reg::reset();
                 let opsig = if fault == 0 { "clone_from(same type)" } else { "clone_from(same type)+panic in Clone" };
                 let desc = format!("{name}|dst len={la} (tight) <- src len={lb}|fault@{fault}");
